@@ -14,6 +14,7 @@ import copy
 import io
 import json
 import logging
+import os
 import traceback
 import warnings
 
@@ -65,7 +66,11 @@ MIN_COUNTERS = {
               "cases_requesting_only_inputs_of_the_overwriting_discipline": 20,
               "cases_pruned_overwriter_with_live_earlier_producer_and_later_reader": 8,
               "requests_pruning_the_last_producer_of_an_overwritten_variable": 45,
-              "later_requests_pruning_the_last_producer_of_an_overwritten_variable": 18},
+              "later_requests_pruning_the_last_producer_of_an_overwritten_variable": 18,
+              "cases_interleaving_points": 200, "cases_root_cache_memory_full": 200, "cases_root_cache_hdf5": 100,
+              "cases_root_cache_none": 150, "executions_without_linearization": 300,
+              "linearizations_at_a_point_left_and_revisited": 550,
+              "linearizations_whose_execution_is_served_by_a_multi_entry_root_cache": 350},
     "thorough": {"linearizations_judged": 11000, "successive_requests_judged": 6000, "blocks_checked": 60000,
                  "zero_blocks_checked": 22000, "executed_values_checked": 50000, "unrequested_blocks_checked": 2200,
                  "cases_chain": 3200, "cases_par": 1000, "cases_add": 800, "cases_mdachain": 1200, "cases_nested": 3300,
@@ -76,7 +81,11 @@ MIN_COUNTERS = {
                  "cases_requesting_only_inputs_of_the_overwriting_discipline": 300,
                  "cases_pruned_overwriter_with_live_earlier_producer_and_later_reader": 120,
                  "requests_pruning_the_last_producer_of_an_overwritten_variable": 650,
-                 "later_requests_pruning_the_last_producer_of_an_overwritten_variable": 280},
+                 "later_requests_pruning_the_last_producer_of_an_overwritten_variable": 280,
+                 "cases_interleaving_points": 4000, "cases_root_cache_memory_full": 4000, "cases_root_cache_hdf5": 2000,
+                 "cases_root_cache_none": 3000, "executions_without_linearization": 6000,
+                 "linearizations_at_a_point_left_and_revisited": 11000,
+                 "linearizations_whose_execution_is_served_by_a_multi_entry_root_cache": 7000},
 }
 SHARD_TIMEOUT = {"quick": 500, "thorough": 3000}
 
@@ -178,6 +187,29 @@ def _where(exc):
     return where
 
 
+SCRATCH = {"dir": None, "n": 0}
+
+
+def _set_root_cache(proc, policy):
+    """Cache policy of the root process: default SimpleCache, multi-entry (memory / HDF5 file in the scratch) or none."""
+    if policy == "simple":
+        return
+    if policy == "none":
+        proc.set_cache(proc.CacheType.NONE)
+    elif policy == "memory_full":
+        proc.set_cache(proc.CacheType.MEMORY_FULL)
+    elif policy == "hdf5":
+        import tempfile
+
+        if SCRATCH["dir"] is None:
+            SCRATCH["dir"] = tempfile.mkdtemp(prefix="c09_cache_")
+        SCRATCH["n"] += 1
+        proc.set_cache(proc.CacheType.HDF5, hdf_file_path=f"{SCRATCH['dir']}/c09_{os.getpid()}_{SCRATCH['n']}.h5",
+                       hdf_node_path="root")
+    else:  # pragma: no cover
+        raise ValueError(policy)
+
+
 class Finding:
     """One oracle failure before classification."""
 
@@ -211,6 +243,13 @@ def judge(case, counters=None):
     except Exception as e:  # a valid acyclic composition must be constructible
         findings.append(Finding("the process is built", "exception:build", 0, exc=f"{type(e).__name__}: {e}"))
         return findings, info
+    cache = case.get("cache", "simple")
+    try:
+        _set_root_cache(proc, cache)
+    except Exception as e:
+        info["harness"].append({"cache-setup": f"{cache}: {type(e).__name__}: {e}"})
+        return findings, info
+    visited = []  # points at which the root process has been executed or linearized, in order
     got_ins, got_outs = list(proc.io.input_grammar), list(proc.io.output_grammar)
     if set(got_ins) != set(ref_ins) or not set(ref_outs) <= set(got_outs) or \
             set(got_outs) - set(ref_outs) - {G.RESIDUAL_NORM}:
@@ -242,6 +281,29 @@ def judge(case, counters=None):
         G.EXPECTED_LEAF_INPUTS.clear()
         G.EXPECTED_LEAF_INPUTS.update(trace)
         n_found = len(findings)
+        revisit = req["point"] in visited and visited[-1] != req["point"]
+        visited.append(req["point"])
+        if req.get("op") == "execute":
+            # the process is only evaluated at this point (no linearization): later linearizations at another point
+            # find the sub-disciplines in the state of this one
+            try:
+                with contextlib.redirect_stderr(io.StringIO()):
+                    out = proc.execute({n: v.copy() for n, v in x.items()})
+                bad = [o for o in ref_outs if o not in ref_ins and not np.allclose(
+                    np.asarray(out[o], dtype=float), values[o], rtol=1e-12, atol=1e-12)]
+            except Exception as e:
+                bad = [f"{type(e).__name__}: {e}"]
+            finally:
+                G.EXPECTED_LEAF_INPUTS.clear()
+            if bad:
+                info["harness"].append({"value-mismatch": {"outputs": bad, "request": k}})
+                return findings, info
+            count("executions_without_linearization")
+            continue
+        if revisit:
+            count("linearizations_at_a_point_left_and_revisited")
+            if cache in ("memory_full", "hdf5"):
+                count("linearizations_whose_execution_is_served_by_a_multi_entry_root_cache")
         try:
             if req["ins"]:
                 proc.add_differentiated_inputs(list(req["ins"]))
@@ -353,8 +415,8 @@ def _check_block(blk, o, i, sizes, jref, scale, k, requested):
 # --------------------------------------------------------------------------- classification
 def single_request_case(case, k):
     """The cumulative request ``k`` of ``case`` alone, on a fresh instance."""
-    reqs = case["requests"][: k + 1]
-    last = reqs[-1]
+    reqs = [r for r in case["requests"][: k + 1] if r.get("op") != "execute"]
+    last = case["requests"][k]
     if last["all"]:
         one = {"all": True, "ins": [], "outs": [], "point": 0}
     else:
@@ -384,6 +446,16 @@ def classify(case, f):
         if pl.endswith("@" + ADDITIVE_SUM):
             how = "raised" if f.what.startswith("exception:") and f.what.endswith(ADDITIVE_SUM) else "swallowed-by-parallel-worker"
             return f"C09:MDOAdditiveChain:jacobian-sum:{pl.split('@')[0]}:{how}", notes
+    # 0b. multi-entry cache on the root process: does the very same history pass with the default cache?
+    if case.get("cache") in ("memory_full", "hdf5"):
+        f0, i0 = judge(dict(case, cache="simple"))
+        notes["same_history_passes_with_the_default_cache"] = not f0 and not i0["harness"]
+        if notes["same_history_passes_with_the_default_cache"]:
+            # the execution at the requested point was served by the cache of the root process, the sub-processes
+            # still hold the data of the last point actually computed and are linearized there
+            return (f"C09:{root_cls}:multi-entry-cache-hit:sub-disciplines-linearized-at-another-point"
+                    if f.wrong_point or f.what in WRONG_VALUE else
+                    f"C09:{root_cls}:multi-entry-cache-hit:{f.what}"), notes
     # 1. a leaf was linearized at a point which is not the one of the executed dataflow
     if f.wrong_point:
         notes["leaves_linearized_off_the_executed_point"] = f.wrong_point
@@ -506,6 +578,9 @@ def run_case(case, rep):
               len(case["points"])), info["nontrivial"] or bool(findings))
     rep.count("cases_" + feats["root"])
     pat = str(case.get("pattern", ""))
+    rep.count("cases_root_cache_" + str(case.get("cache", "simple")))
+    if pat.startswith("interleaved"):
+        rep.count("cases_interleaving_points")
     if case.get("stratum") == "overwrite":
         rep.count("cases_overwrite_stratum")
     if pat.startswith("overwrite-exclude"):
@@ -781,6 +856,32 @@ def directed_cases():
                           ([_req(all_=True), _req(["x"], ["o", "v"])], "overwrite-exclude-after-all"),
                           ([_req(["z"], ["o"])], "overwrite-only-first")):
             add({"t": "chain", "children": copy.deepcopy(kids)}, s, reqs, pattern=pat)
+    # 12. multi-entry cache on the root process and interleaved points: execute at p0, execute at p1, linearize at p0
+    #     (execution served by the root cache while the sub-disciplines hold p1), at p1, again at p0 with a grown request
+    s = {"x": 2, "z": 1, "a": 3, "b": 2, "o": 2}
+    pts = [{"x": [0.3, -0.2], "z": [0.5]}, {"x": [-0.7, 0.9], "z": [-0.4]}]
+
+    def ex(point):
+        return {"op": "execute", "all": False, "ins": [], "outs": [], "point": point}
+
+    hist = [ex(0), ex(1), _req(["x"], ["o"], point=0), _req(point=1), _req(["z"], ["b"], point=0), _req(point=0)]
+    for kind in ("mdachain", "chain", "par", "add"):
+        for cache in ("memory_full", "hdf5", "simple", "none"):
+            rng = np.random.default_rng(17)
+            if kind in ("mdachain", "chain"):
+                kids = [_leaf("D1", ["x", "z"], ["a"], s, rng, "sq"), _leaf("D2", ["a", "x"], ["b"], s, rng, "tanh", "csr"),
+                        _leaf("D3", ["b", "a"], ["o"], s, rng, "sq")]
+            else:
+                kids = [_leaf("D1", ["x", "z"], ["o"], s, rng, "sq"), _leaf("D2", ["x"], ["o", "b"], s, rng, "tanh", "csr")]
+            node = {"t": kind, "children": kids}
+            if kind == "mdachain":
+                node.update(chain_linearize=True, parallelize=False)
+            if kind == "add":
+                node.update(sum=["o"], n_processes=None)
+            if kind == "par":
+                node.update(n_processes=None)
+            add(node, s, copy.deepcopy(hist), copy.deepcopy(pts), pattern="interleaved-directed")
+            cases[-1]["cache"] = cache
     return cases
 
 
@@ -800,13 +901,28 @@ def gen_case(rng, opts=None):
         if rng.random() < 0.6:
             opts["root_kind"] = "chain"
     spec = G.random_composition(rng, **(opts or {}))
-    hist = G.random_requests(rng, spec, p_targeted=p_targeted)
+    if not stratum and rng.random() < 0.2:
+        hist = G.interleaved_requests(rng, spec)
+        cache = str(rng.choice(["simple", "memory_full", "hdf5", "none"], p=[0.15, 0.5, 0.2, 0.15]))
+    else:
+        hist = G.random_requests(rng, spec, p_targeted=p_targeted)
+        cache = str(rng.choice(["simple", "memory_full", "hdf5", "none"], p=[0.7, 0.12, 0.06, 0.12]))
+    if cache in ("memory_full", "hdf5"):
+        # multi-entry caches copy / serialise the Jacobian they store: a JacobianOperator block cannot be written to
+        # HDF5 (no native type) nor deep-copied when it closes over local callables; storing operators is a cache
+        # matter (C05/C11), so the leaves of these cases return csr blocks instead of operators
+        for lf in G.leaves(spec["root"]):
+            for row in lf["fmt"].values():
+                for i, f_ in row.items():
+                    if f_ == "op":
+                        row[i] = "csr"
     return {"spec": spec, "points": hist["points"], "requests": hist["requests"], "pattern": hist["pattern"],
-            "stratum": stratum}
+            "stratum": stratum, "cache": cache}
 
 
 def run_shard(spec, rep):
     _quiet()
+    SCRATCH["dir"] = spec.get("scratch") or SCRATCH["dir"]
     rng = np.random.default_rng(spec["seed"])
     if spec.get("shard", 0) == 0:
         for case in directed_cases():
@@ -838,6 +954,7 @@ def _pack(case):
 
 def replay(case, rep):
     _quiet()
+    SCRATCH["dir"] = rep.spec.get("scratch") or SCRATCH["dir"]
     if "json" in case:
         case = json.loads(case["json"])
     if case.get("kind") == "symbolic":
